@@ -359,7 +359,13 @@ def filter_programs() -> list[str]:
 
 
 ALPHABET = "{%}#|:,.'\"[]()-~$\\a1 \n"
-OPENERS = ["", "{{", "{{ ", "{%", "{% ", "{{ ['a']", "{% if [a]", "{{ a.b", "{{ a", "{{ a | f: ", "{% if ", "{% for x in ",
+OPENERS = ["", "{{", "{{ ", "{%", "{% ", "{{ ['a']", "{% if [a]", "{{ a.b",
+           # the argument grammar of every other tag
+           "{% macro m ", "{% macro m a", "{% call m ", "{% with ", "{% with a", "{% cycle ", "{% cycle a",
+           "{% include 'p' ", "{% include 'p' with a", "{% render 'p' ", "{% render 'p' for a", "{% extends ",
+           "{% block ", "{% translate ", "{% translate a", "{% increment ", "{% echo ", "{% unless ",
+           "{% capture ", "{% for x in a ", "{% elsif ", "{% when ", "{% liquid\nassign x = ", "{% liquid\nfor x in ",
+           "{{ a | f: k", "{{ a if ", "{{ a if b else ", "{{ (a..", "{{ a | where: (x, i) => ", "{{ a", "{{ a | f: ", "{% if ", "{% for x in ",
            "{% assign x = ", "{{ 'x", "{{ \"${", "{% liquid ", "{# ", "{% raw %}", "{{ (1..",
            "{% case a %}{% when ", "{{ a[", "{% comment %}", "{{ a | map: i => "]
 CLOSERS = ["", " }}", " %}"]
@@ -381,6 +387,7 @@ def shards(tier: str, seed: int) -> list[dict[str, Any]]:
         specs.append({"kind": "confused", "i": i, "n": nc})
     specs.append({"kind": "rangeprobe"})
     specs.append({"kind": "numlit"})
+    specs.append({"kind": "depth"})
     ng = 5 if tier == "quick" else 16
     for i in range(ng):
         specs.append({"kind": "genconf", "i": i, "n": ng, "per": 1200 if tier == "quick" else 12000})
@@ -395,6 +402,7 @@ def floors(tier: str) -> dict[str, int]:
         "message_method_calls": 10_000 * k,
         "ok": 10_000 * k,
         "shorthand_config_runs": 10_000 * k,
+        "depth_limit_renders": 900,
     }
 
 
@@ -414,6 +422,8 @@ def run_shard(spec: dict[str, Any], ctx: Ctx) -> None:
             _genconf(r, spec, ctx)
         elif kind == "numlit":
             _numlit(r, spec, ctx)
+        elif kind == "depth":
+            _depth(r, spec, ctx)
     finally:
         r.sc.stop()
 
@@ -519,6 +529,59 @@ def _confused(r: Runner, spec: dict[str, Any], ctx: Ctx) -> None:
                 r.execute(c["template"], d, c["templates"], "sync")
     if last:
         ctx.sample({"kind": "confused", "source": last[0], "data": last[1]})
+
+
+def _depth(r: Runner, spec: dict[str, Any], ctx: Ctx) -> None:
+    """Renders that reach the context depth limit (30) exactly at each kind of scope push:
+    directly nested block tags, and self-including / self-rendering partials that walk
+    nested data, with the refusal landing on a for / with / capture / tablerow / macro call /
+    include / render at every depth around the limit.  Only LiquidErrors may come out."""
+    wraps = {
+        "for": ("{% for x in a %}", "{% endfor %}"),
+        "with": ("{% with v: a %}", "{% endwith %}"),
+        "if": ("{% if a %}", "{% endif %}"),
+        "capture": ("{% capture c %}", "{% endcapture %}{{ c }}"),
+        "case": ("{% case 1 %}{% when 1 %}", "{% endcase %}"),
+        "unless": ("{% unless b %}", "{% endunless %}"),
+    }
+    data = {"a": [1], "b": False, "t": {"k": 1, "kids": [{"k": 2, "kids": []}]}}
+    n = 0
+    for kind, (o, c) in wraps.items():
+        for depth in range(24, 36):
+            for inner in ("{{ x }}", "{% for y in a %}{{ y }}{% endfor %}", "{% with w: 1 %}{{ w }}{% endwith %}",
+                          "{% include 'leaf' %}", "{% render 'leaf' %}"):
+                src = o * depth + inner + c * depth
+                for mode in ("sync", "async"):
+                    r.execute(src, data, DEPTH_PARTIALS, mode)
+                    n += 1
+    # recursive partials over data nested deeper than the limit allows
+    def tree(d: int) -> Any:
+        node: Any = {"k": d, "kids": []}
+        for i in range(d):
+            node = {"k": i, "kids": [node]}
+        return node
+    for name in DEPTH_PARTIALS:
+        if not name.startswith("walk"):
+            continue
+        for d in list(range(2, 22)) + [30, 40]:
+            for mode in ("sync", "async"):
+                r.execute("{% include '" + name + "', node: t %}", {"t": tree(d), "a": [1]}, DEPTH_PARTIALS, mode)
+                r.execute("{% render '" + name + "', node: t %}", {"t": tree(d), "a": [1]}, DEPTH_PARTIALS, mode)
+                n += 2
+    ctx.count("depth_limit_renders", n)
+    ctx.sample({"kind": "depth", "source": "{% include 'walk_for', node: t %}", "partials": DEPTH_PARTIALS["walk_for"]})
+
+
+DEPTH_PARTIALS = {
+    "leaf": "[{{ a }}]",
+    "walk_for": "{{ node.k }}{% for child in node.kids %}{% include 'walk_for', node: child %}{% endfor %}",
+    "walk_for_with": "{{ node.k }}{% for child in node.kids %}{% with n: child %}{% include 'walk_for_with', node: n %}{% endwith %}{% endfor %}",
+    "walk_render": "{{ node.k }}{% for child in node.kids %}{% render 'walk_render', node: child %}{% endfor %}",
+    "walk_render_for": "{{ node.k }}{% render 'walk_render_for' for node.kids as node %}",
+    "walk_capture": "{% capture c %}{% for child in node.kids %}{% include 'walk_capture', node: child %}{% endfor %}{% endcapture %}{{ node.k }}{{ c }}",
+    "walk_macro": "{% macro m n %}{{ n.k }}{% for child in n.kids %}{% include 'walk_macro', node: child %}{% endfor %}{% endmacro %}{% call m node %}",
+    "walk_for_for": "{% for z in a %}{% for child in node.kids %}{% include 'walk_for_for', node: child %}{% endfor %}{% endfor %}",
+}
 
 
 def _numlit(r: Runner, spec: dict[str, Any], ctx: Ctx) -> None:
